@@ -78,6 +78,7 @@ func (g *Gen) stdModel(v ssa.Value, name string, c *ssa.CallCommon, in ssa.Instr
 		for j := 0; j < 8; j++ {
 			arr = app("store", arr, app("+", app("s_off", b.S), fmt.Sprint(j)), app(fmt.Sprintf("(_ extract %d %d)", 63-8*j, 56-8*j), x.S))
 		}
+		g.recordWrite("E.uint8", c.Args[1])
 		g.stSet(st, "E.uint8", hso, app("store", h, app("s_obj", b.S), arr))
 		return true
 	case "errors.Is", "github.com/pkg/errors.Is":
